@@ -418,6 +418,44 @@ theorem mapped_str_view_eq (m : Mode) (valid : List UInt8 → Bool) (file : Arra
     · simp [hv, Outcome.bind, mn_bytesView, payloadBytes, mn_bind_def]
     · simp [hv, Outcome.bind, mn_bytesView, payloadBytes, mn_bind_def]
 
+/-! ### `MappedOption<T>::new` -/
+
+/-- what a `MappedOption` denotes, given what its inner view denotes -/
+def mn_optionView (toV : MappedSliceR → View) (r : MappedOptionR) : View × Bool :=
+  (⟨r.offset, r.dataLen + 1, r.dataLen, match r.data with | some d => (toV d).payload | none => []⟩, r.data.isSome)
+
+/-- `MappedOption<T>::new` as translated, for ANY inner constructor `T::new` (a parameter) and any reading `toV` of its
+result: the model's optional view is exactly the image of what the code returns, faults included -/
+theorem mapped_option_view_eq (m : Mode) (inner : Array Word → Nat → Outcome MappedSliceR) (toV : MappedSliceR → View)
+    (file : Array Word) (offset : Nat) :
+    View.option m (fun f o => (inner f o).bind (fun r => ok (toV r))) file offset
+      = (gen_MappedOption_new m inner file offset).bind (fun r => ok (mn_optionView toV r)) := by
+  unfold gen_MappedOption_new View.option
+  by_cases h : offset ≥ file.size
+  · simp only [h, decide_true, if_true]; rfl
+  · have hlt : offset < file.size := by omega
+    simp only [h, decide_false, if_false, mn_bind_def, Bool.false_eq_true]
+    rw [mn_getC_lt hlt, mn_fileAt_lt hlt]
+    simp only [mn_obind_ok]
+    by_cases hd : (rd file offset).toNat > 0
+    · simp only [hd, decide_true, if_true]
+      cases addM m offset 1 with
+      | fault e => rfl
+      | ok a =>
+        simp only [mn_obind_ok]
+        cases inner file a with
+        | fault e => rfl
+        | ok v => rfl
+    · have h0 : (rd file offset).toNat = 0 := by omega
+      simp only [hd, decide_false, if_false, Bool.false_eq_true]
+      show _ = ok (mn_optionView toV ⟨none, offset, (rd file offset).toNat⟩)
+      rw [h0]; rfl
+
+/-- non-vacuity: an absent and a present optional byte view -/
+example : gen_MappedOption_new .checked (gen_MappedBytes_new .checked) #[0, 9] 0 = ok ⟨none, 0, 0⟩ ∧
+    gen_MappedOption_new .checked (gen_MappedBytes_new .checked) #[2, 3, 0x616263] 0
+      = ok ⟨some ⟨(3, [0x616263]), 1⟩, 0, 2⟩ := by decide
+
 theorem mapped_bytes_map_len_eq' (m : Mode) (r : MappedSliceR) :
     gen_MappedBytes_map_len m r = (bytesToWords m r.data.1).bind (fun t => addM m t 1) := by
   unfold gen_MappedBytes_map_len
